@@ -55,7 +55,8 @@ class Check(BaseCheck):
         for c in gen.tria_stream(seed + 151, n, "small", classes=classes, modifiers=False):
             if len(np.unique(c["t"])) != len(c["v"]):
                 continue
-            yield dict(kind="flow", v=c["v"], t=c["t"], max_iter=int(rng.integers(0, 5)), step=float(rng.uniform(0.1, 2.0)),
+            sc = float(rng.choice([1.0, 1.0, 1e-9, 1e4]))      # the flow normalises its input first: the result does not depend on the unit
+            yield dict(kind="flow", v=c["v"] * sc, t=c["t"], max_iter=int(rng.integers(0, 5)), step=float(rng.uniform(0.1, 2.0)),
                        stop_eps=float(rng.choice([1e-13, 1e-3])), name=c["name"], pres=c.get("pres"))
 
     def correspond(self, drv, stats):
